@@ -157,7 +157,12 @@ def ta_state_findings(rec, cfg, machine, prev_grants=None):
             anc = set(ancestors(g['pool']))
             pool = pools[g['pool']]
             sliced_above = [h['id'] for h in gl if h['exclusive'] and h['pool'] in anc and set(h['exclusive']) & set(pool['shar'])]
-            sig = 'descendant-of-slicing-grant' if sliced_above else ('no-sharable-cpus-in-pool' if not pool['shar'] else 'empty-cpuset')
+            # grants of the same pool holding every sharable CPU of it exclusively: AllocateCPU never slices the last
+            # shared CPU off a pool (strict capacity test), Reserve (reinstatement after a configuration update that
+            # shrank the shared set) does
+            own = set().union(*[set(h['exclusive']) for h in gl if h['pool'] == g['pool']] or [set()])
+            sig = 'descendant-of-slicing-grant' if sliced_above else ('no-sharable-cpus-in-pool' if not pool['shar'] else
+                  ('all-shared-cpus-of-pool-reinstated-exclusive' if set(pool['shar']) <= own else 'empty-cpuset'))
             out.append(F('C03', 'nonempty-cpuset', sig, 'container %s (pool %s) has an empty allowed cpuset' % (c['id'], g['pool']), seq))
         pr = c.get('prefs')
         # eligibility is decided when a grant is made: look at grants made by this request (a grant
